@@ -38,6 +38,11 @@ type MemStore struct {
 	AutoSaves int32
 	release   chan struct{}
 
+	// gate, if set, blocks the next explicit Save until it is closed (a slow store write)
+	gate        chan struct{}
+	Gate        chan struct{}
+	gateReached int32
+
 	// Inner, if set, is the real store behind the gate (a JsonDataStore on disk).
 	Inner store.DataStore
 	Dir   string
@@ -68,7 +73,26 @@ func (s *MemStore) Load() (*store.PersistedData, error) {
 	return &store.PersistedData{}, nil
 }
 
+// SetGate makes the next Save block until gate is closed.
+func (s *MemStore) SetGate(gate chan struct{}) {
+	s.mu.Lock()
+	s.gate, s.Gate = gate, gate
+	atomic.StoreInt32(&s.gateReached, 0)
+	s.mu.Unlock()
+}
+
+// GateReached reports whether a Save is blocked at the gate.
+func (s *MemStore) GateReached() bool { return atomic.LoadInt32(&s.gateReached) == 1 }
+
 func (s *MemStore) Save(d *store.PersistedData) error {
+	s.mu.Lock()
+	gate := s.gate
+	s.gate = nil
+	s.mu.Unlock()
+	if gate != nil {
+		atomic.StoreInt32(&s.gateReached, 1)
+		<-gate
+	}
 	if atomic.LoadInt32(&s.Explicit) == 0 {
 		// a save of the persist loop: the first one follows the first change at once (the harness waits
 		// for it, see Settle), the next one cannot come earlier than 3 seconds later
